@@ -1,8 +1,11 @@
+\* behaviour generation (tlc -simulate) on the 9-entry universe; families/mempool.py varies Cap / PerSender / MaxLast,
+\* switches defective submissions (C22), producer-list queries (C23) and the node-rig action set (NodeRig) on
 SPECIFICATION Spec
 CONSTANTS
   Ent = {1, 2, 3, 4, 5, 6, 7, 8, 9}
   Tab <- TabU9
   Senders <- SendersABX
+  Defects <- NoDefects
   Cap = 3
   PerSender = 2
   MaxLast = 2
@@ -11,7 +14,6 @@ CONSTANTS
   MaxBlk = 2
   LevelFee = FALSE
   TierAt = 2
-  Defects <- NoDefects
   MaxRm = 2
   QueryOn = FALSE
   NodeRig = FALSE
